@@ -246,6 +246,10 @@ def parser_tables():
     D = {n: c_define(src, n) for n in ['YYFINAL', 'YYLAST', 'YYNTOKENS', 'YYNSTATES', 'YYNRULES', 'YYMAXUTOK',
                                          'YYPACT_NINF', 'YYTABLE_NINF', 'YYINITDEPTH', 'YYMAXDEPTH']}
     nrules = D['YYNRULES'] or 0
+    # `#define yytable_value_is_error(Yyn) 0` means the table holds no error entries
+    mm = re.search(r'#define yytable_value_is_error\(Yyn\)\s*\\\n\s*(.*)', src)
+    if mm and normalise(mm.group(1)) == '0':
+        D['YYTABLE_NINF'] = -32768
     acts = {}
     helpers_ok = True
     try:
